@@ -23,16 +23,30 @@ pub mod tokio {
         pub struct JoinSet<T> { _t: core::marker::PhantomData<T> }
         impl<T> JoinSet<T> {
             pub uninterp spec fn may_yield(&self, v: T) -> bool;
+            // completeness side: tasks are numbered by spawn order; ids() = spawned and not yet handed out; yields(id, v) = task `id` ran to
+            // completion with value v. join_next answers None only when no task is left (tokio: "returns None if the set is empty")
+            pub uninterp spec fn ids(&self) -> Set<int>;
+            pub uninterp spec fn count(&self) -> int;
+            pub uninterp spec fn yields(&self, id: int, v: T) -> bool;
             #[verifier::external_body]
-            pub fn new() -> (r: Self) ensures forall|v: T| !r.may_yield(v) { unimplemented!() }
+            pub fn new() -> (r: Self)
+                ensures forall|v: T| !r.may_yield(v), r.ids() == Set::<int>::empty(), r.count() == 0, forall|id: int, v: T| !r.yields(id, v)
+            { unimplemented!() }
             #[verifier::external_body]
             pub fn spawn<F: Future<Output = T>>(&mut self, f: F)
-                ensures forall|v: T| #[trigger] final(self).may_yield(v) ==> old(self).may_yield(v) || (f.awaited() && v == f@)
+                ensures forall|v: T| #[trigger] final(self).may_yield(v) ==> old(self).may_yield(v) || (f.awaited() && v == f@),
+                        final(self).count() == old(self).count() + 1,
+                        final(self).ids() == old(self).ids().insert(old(self).count()),
+                        forall|id: int, v: T| #[trigger] final(self).yields(id, v) ==> (if id == old(self).count() { f.awaited() && v == f@ } else { old(self).yields(id, v) }),
             { unimplemented!() }
             #[verifier::external_body]
             pub async fn join_next(&mut self) -> (r: Option<Result<T, JoinError>>)
-                ensures (r matches Some(Ok(v)) ==> old(self).may_yield(v)),
+                ensures (r matches Some(Ok(v)) ==> old(self).may_yield(v)
+                            && exists|id: int| old(self).ids().contains(id) && #[trigger] old(self).yields(id, v) && final(self).ids() == old(self).ids().remove(id)),
+                        r is None ==> final(self).ids() == old(self).ids() && forall|id: int| !old(self).ids().contains(id),
                         forall|v: T| #[trigger] final(self).may_yield(v) ==> old(self).may_yield(v),
+                        final(self).count() == old(self).count(),
+                        forall|id: int, v: T| #[trigger] final(self).yields(id, v) ==> old(self).yields(id, v),
             { unimplemented!() }
         }
         #[verifier::external]
